@@ -584,6 +584,17 @@ func (g *gen) specCall(e *env, n *ast.CallExpr) sval {
 			return sval{t: g.listLen(e.st, v.t), gt: tInt, sort: "Int"}
 		}
 		g.specFail(n, "len of sort %s", v.sort)
+	case "calls":
+		// calls(NAME): how many calls named NAME this function has executed so far (ghost)
+		id, ok := n.Args[0].(*ast.Ident)
+		if !ok {
+			g.specFail(n, "calls(NAME)")
+		}
+		h := "GHOST.calls." + id.Name
+		if v, ok := e.st.heap[h]; ok {
+			return sval{t: v, gt: tInt, sort: "Int"}
+		}
+		return sval{t: "0", gt: tInt, sort: "Int"}
 	case "allnodes":
 		// allnodes(n, body): body holds for every allocated document node n (n ranges over *CandidateNode)
 		if len(n.Args) != 2 {
